@@ -16,7 +16,7 @@ from ..gen import grammar as gg
 PID = "C05"
 SHARDS = {"quick": 8, "thorough": 16}
 
-EXCLUDED_FILTERS = {"safe", "newline_to_br", "script_tag", "stylesheet_tag", "date", "json", "escapejs"}
+EXCLUDED_FILTERS = {"safe", "newline_to_br", "script_tag", "stylesheet_tag", "json", "escapejs"}
 FILTERS = [f for f in sorted(gg.FILTER_ARGS) if f not in EXCLUDED_FILTERS]
 CUTTING = {
     "slice", "truncate", "truncatewords", "split", "remove", "remove_first", "remove_last", "replace",
@@ -101,7 +101,44 @@ def _filters_used(nodes) -> set:
     return set(re.findall(r'"name": "(\w+)"', core.canon(nodes)))
 
 
+MEMO_FILTERS = [
+    "strip_html", "strip", "lstrip", "rstrip", "strip_newlines", "squish", "upcase", "downcase", "capitalize", "truncate: 999", "truncatewords: 99",
+    "default: 'z'", "append: ''", "prepend: ''", "replace: '~', '~'", "remove: '~'", "slice: 0, 999", "url_decode", "escape_once", "date: '%Y'",
+    "split: '~' | join: '~'", "split: '~' | first", "base64_encode | base64_decode", "t",
+]
+MEMO_STRINGS = ["it's", "R&D", "1 < 2", 'say "hi"', "<b>x</b>", "a > b", "&amp; <", "x'y\"z"]
+
+
+def eval_memo(case) -> Verdict:
+    """A filter sees a trusted (Markup) value first, then an equal untrusted string, in the same process.
+
+    Whatever the first call leaves behind (a memo keyed by equality, say) must not make the second output raw.
+    """
+    from markupsafe import Markup
+
+    v = Verdict()
+    f, s = case["filter"], case["s"]
+    env = envs.make_env({"mode": "strict", "extra": True, "twice": False, "autoescape": True})
+    t = env.from_string("{{ m | " + f + " }}")
+    first = oc.outcome_of(lambda: t.render(m=Markup(s)))
+    second = oc.outcome_of(lambda: t.render(m=s))
+    if second[0] == "ok":
+        out = second[1]
+        if re.search(r"[<>\"']", out) or re.search(r"&(?!(#\d+|#x[0-9a-fA-F]+|\w+);)", out):
+            v.fail(
+                f"memo:raw-after-trusted:{f.split(':')[0].split(' ')[0]}",
+                f"{{{{ m | {f} }}}}: after rendering with the trusted value Markup({s!r}) (-> {oc.short(first)!r:.80}), the untrusted "
+                f"string {s!r} was output raw: {out!r}",
+            )
+    v.nontrivial = True
+    v.labels.append("memo")
+    v.key = ["memo", f, s]
+    return v
+
+
 def evaluate(case) -> Verdict:
+    if case.get("kind") == "memo":
+        return eval_memo(case)
     v = Verdict()
     kind = case["kind"]
     ternary = bool(case.get("ternary"))
@@ -271,6 +308,11 @@ def campaign(ctx: core.Ctx, tier: str, shard: int, nshards: int) -> None:
             idx += 1
             if idx % nshards == shard:
                 ctx.run({"kind": "safe", "i": i, "v": val})
+    for f in MEMO_FILTERS:
+        for st_ in MEMO_STRINGS:
+            idx += 1
+            if idx % nshards == shard:
+                ctx.run({"kind": "memo", "filter": f, "s": st_}, enumerated=True)
     total = 4000 if tier == "quick" else 120000
     core.drive(cases(), ctx.run, n=max(1, total // nshards), seed=core.sub_seed(ctx.seed, shard))
     core.drive(chain_cases(), ctx.run, n=max(1, (6000 if tier == "quick" else 150000) // nshards), seed=core.sub_seed(ctx.seed, shard, 7))
@@ -282,12 +324,13 @@ def finish_kwargs(ctx: core.Ctx, tier: str) -> dict:
         "rule": (
             "autoescape=True; random templates over output, echo, assign, capture, cycle, for, if, case, liquid, "
             "include/render, with, ternary and the t filter, with chains of up to 4 built-in string/array/math filters "
-            "(all except safe, newline_to_br, script_tag, stylesheet_tag, date, json, escapejs); template text and "
+            "(all except safe, newline_to_br, script_tag, stylesheet_tag, json, escapejs); template text and "
             "string literals contain no HTML-special characters; data strings come from a pool rich in <>&'\" and "
             "entity fragments; plus round-trip chains data | encode | text-preserving filters or a capture | decode "
             "(base64, url-safe base64, url encoding). (A) no raw < > \" ' in the output; (A') every & starts a complete entity, asserted "
             "when no cutting filter occurs in the template; (B) Markup / __html__ values are output unchanged through "
-            "15 shapes; (C) with special characters removed from the data the output is identical with autoescape "
+            "15 shapes; (B') a filter applied to a trusted value and then, in the same process, to an equal untrusted string "
+            f"must still escape the second ({len(MEMO_FILTERS)} filters x {len(MEMO_STRINGS)} strings); (C) with special characters removed from the data the output is identical with autoescape "
             "off. Non-trivial (A) = a data string with a special character reached the output through a filter or "
             "a tag other than a bare output."
         ),
